@@ -974,7 +974,10 @@ impl<'a> Gen<'a> {
                 let suffix = *self.rng.pick(&["%", "%", "&", "!", "#"]);
                 self.loop_counter += 1;
                 let v = format!("I{}{}", self.loop_counter, suffix);
-                let (lo, hi, step): (i32, i32, Option<E>) = match self.rng.below(6) {
+                let (lo, hi, step): (i32, i32, Option<E>) = match self.rng.below(8) {
+                    // a step of a wider type than the counter is converted to the counter's type
+                    6 => (1, 5, Some(e(EK::Lit(Lit::Single(1.5))))),
+                    7 => (1, 3, Some(e(EK::Lit(if self.rng.chance(1, 2) { Lit::Double(0.25) } else { Lit::Long(100000) })))),
                     0 => (1, 3, None),
                     1 => (3, 1, Some(e(EK::Un(0, Box::new(e(EK::Lit(Lit::Int(1)))))))),
                     2 => (1, 6, Some(e(EK::Lit(Lit::Int(2))))),
